@@ -484,3 +484,11 @@ TEXT["C05"]["technique"] = "TLA+ spec + TLC random walks on MC_Cluster (partitio
 # the twin driver starts with Timer's own order (bound to the specification's TimerSeq), reported under C13
 for _t in ("quick", "thorough"):
     PROPS["C13"]["drivers"][_t].append({"args": ["twin", "--runs", "4", "--steps", "100"], "shards": 1})
+
+# the Backlog component alone, exhaustively (every legal outcome of fill for every amount of space)
+PROPS["C15"]["mc"] = [{"module": "MC_C15", "cfg": "MC_C15.cfg", "workers": 8, "timeout": 1500,
+                       "what": "exhaustive: Backlog (fill) - 3 keys, sizes {3,5}, max_transmissions 2, space 0..14, every history "
+                               "of accept/fill to depth 6, EVERY legal outcome of each fill"}] + PROPS["C15"]["mc"]
+PROPS["C16"]["mc"] = [{"module": "MC_C15", "cfg": "MC_C16.cfg", "workers": 8, "timeout": 1500,
+                       "what": "exhaustive: Backlog (fill_with_len_prefix) - 3 keys, sizes {3,5}, max_transmissions 3, space 0..18, "
+                               "every history of accept/fill to depth 5, every legal outcome of each fill"}] + PROPS["C16"]["mc"]
